@@ -596,6 +596,10 @@ def call(f, *args, **kwargs):
             # fork over their feasible values on this path (bounded; more than 4096 values is "unsupported")
             cargs = [a.concretize(4096) if isinstance(a, SymInt) else (bool(a) if isinstance(a, SymBool) else a) for a in args]
             return f(*cargs)
+        if (args and not kwargs and getattr(f, "__module__", None) == "unicodedata"
+                and all(isinstance(a, SymSeq) or not has_sym(a) for a in args)):
+            # unicodedata.normalize & co. on a symbolic string: fork over the feasible characters (small alphabets only)
+            return f(*[a.concretize() if isinstance(a, SymSeq) else a for a in args])
         core.cur().unsupported("C function %s with a symbolic argument" %
                                (getattr(f, "__qualname__", None) or repr(f)))
     if isinstance(f, type):
